@@ -10,7 +10,7 @@ from .gen_nb import CODE_LINES, MD_LINES, OUT_LINES
 CELL_OPS = ["insert", "insert_dup", "delete", "move", "edit_source", "edit_source", "edit_source",
             "rerun", "edit_output", "clear_outputs", "attachments", "cell_meta", "cell_meta",
             "nb_meta", "retype", "exec_count", "append_line", "line_endings", "pointer_only",
-            "out_meta", "mime_edit"]
+            "out_meta", "mime_edit", "transient_meta"]
 
 
 def split_keep(s):
@@ -105,6 +105,20 @@ def mutate_once(nb, gen, op=None):
     if op == "cell_meta":
         return _edit_meta(c["metadata"], gen, "cell_meta@%d" % k,
                           protect=("tags", "collapsed", "scrolled", "name", "format", "jupyter", "execution"))
+    if op == "transient_meta":
+        # the fields the merger treats as transient: collapsed / scrolled / autoscroll
+        md = c["metadata"]
+        if c["cell_type"] == "code":
+            cc = r.random()
+            if cc < 0.4:
+                md["collapsed"] = not md.get("collapsed", False)
+            elif cc < 0.7:
+                md["scrolled"] = r.choice([x for x in (True, False, "auto") if x != md.get("scrolled", None)])
+            else:
+                md["autoscroll"] = r.choice([x for x in (True, False, "auto") if x != md.get("autoscroll", None)])
+        else:
+            md["autoscroll"] = r.choice([x for x in (True, False) if x != md.get("autoscroll", None)])
+        return "transient_meta@%d" % k
     if op == "retype":
         old = c["cell_type"]
         new = r.choice([t for t in ("code", "markdown", "raw") if t != old])
